@@ -1,6 +1,7 @@
 (* Props/C09.v — sprouts keep their distance from existing demes; centroids are current. *)
 From Coq Require Import ZArith List Bool Arith.
 From HV Require Import Far FarFacts.
+From HV Require Import Sprout Tree DriverPrim SproutPrim GenEquivStops GenFar FilterDict GenEquivFar.
 Import ListNotations.
 
 (* a deme's centroid is the mean of its CURRENT population: after every recorded generation it is the mean of that generation
@@ -23,3 +24,23 @@ Example C09_example :
   far_filter (fun c s => Z.abs (c - s))%Z (fun s => negb (Z.eqb s 10)) false 2 [0; 10; 20]%Z [1; 5; 11; 30]%Z = [5; 30]%Z /\
   centroid (fun g => fold_right Z.add 0 g)%Z [[1; 2]; [3; 4]; [10; 20]]%Z = 30%Z.
 Proof. vm_compute. repeat split. Qed.
+
+(* ---------------------------------------------------------------- FarEnough and NBC_FarEnough TRANSLATED from the current
+   pyhms/sprout/sprout_filters.py (Gen/GenFilters.v; the numbers numpy computes — norms, the per-parent NBC threshold, "has a centroid" —
+   are oracles): per parent they ARE the model far_filter against the demes of the level below in the CURRENT state, active ones (or all) *)
+Theorem C09_translated_FarEnough (dist : Z -> nat -> Z) c fuel thr cm s : NoDup (cm_keys cm) ->
+  answers (gen_FarEnough dist c fuel thr cm) s
+          (map (fun pk => (fst pk, far_filter dist (act_of (demes (ms s))) true thr (level_ids (demes (ms s)) (lvl_at (demes (ms s)) (fst pk) + 1)) (snd pk))) cm).
+Proof. exact (FarEnough_ok dist c fuel thr cm s). Qed.
+Print Assumptions C09_translated_FarEnough.
+Theorem C09_translated_NBC_FarEnough (dist : Z -> nat -> Z) has_centroid nbc_thr c fuel only_active cm s : NoDup (cm_keys cm) ->
+  answers (gen_NBC_FarEnough dist has_centroid nbc_thr c fuel only_active cm) s
+          (map (fun pk => (fst pk, far_filter (dist_or dist has_centroid nbc_thr (fst pk)) (act_of (demes (ms s))) only_active (nbc_thr (fst pk))
+                                             (level_ids (demes (ms s)) (lvl_at (demes (ms s)) (fst pk) + 1)) (snd pk))) cm).
+Proof. exact (NBC_FarEnough_ok dist has_centroid nbc_thr c fuel only_active cm s). Qed.
+Print Assumptions C09_translated_NBC_FarEnough.
+Theorem C09_translated_FarEnough_sound (dist : Z -> nat -> Z) c fuel thr cm s out p ks k sib :
+  NoDup (cm_keys cm) -> (forall evs, gen_FarEnough dist c fuel thr cm s evs = Some (out, s, evs)) -> In (p, ks) out -> In k ks ->
+  In sib (level_ids (demes (ms s)) (lvl_at (demes (ms s)) p + 1)) -> d_active (dnth sib (demes (ms s))) = true -> (thr < dist k sib)%Z.
+Proof. exact (FarEnough_sound dist c fuel thr cm s out p ks k sib). Qed.
+Print Assumptions C09_translated_FarEnough_sound.
